@@ -66,7 +66,30 @@ def build_args(it, mod, fname, roles, secret_bytes=None, rng=None):
     args = []; k = 0
     def sec_region(tag, n):
         p = it.new_region(tag, n)
-        for j in range(n): it.store(Ptr(p.r, j), SECRET if rng is None else Poly.const(rng.randrange(256)), 1)
+        if rng is None:
+            for j in range(n): it.store(Ptr(p.r, j), SECRET, 1)
+            return p
+        b = [rng.randrange(256) for _ in range(n)]
+        shape = getattr(rng, "shape", None)
+        # structured secrets for the replay (boundary classes a uniformly random secret hits with probability 2^-4 .. 2^-8 only):
+        # applied to the last / first byte of every 32-byte block of the secret (scalars, field elements, keys)
+        ends = [j for j in range(n) if j % 32 == 31 or j == n - 1]; starts = [j for j in range(n) if j % 32 == 0]
+        if shape == "zero": b = [0] * n
+        elif shape == "ones": b = [255] * n
+        elif shape == "top0f":
+            for j in ends: b[j] &= 0x0f
+        elif shape == "top00":
+            for j in ends: b[j] = 0
+        elif shape == "top80":
+            for j in ends: b[j] |= 0x80
+        elif shape == "low0":
+            for j in starts: b[j] = 0
+        for j in range(n): it.store(Ptr(p.r, j), Poly.const(b[j]), 1)
+        return p
+    def pub_region(tag, data):
+        if hasattr(it, "public_region"): return it.public_region(tag, data)
+        p = it.new_region(tag, len(data))
+        for j, v in enumerate(data): it.store(Ptr(p.r, j), Poly.const(v), 1)
         return p
     ri = 0
     for pi, pty in enumerate(fn.param_types):
@@ -78,12 +101,12 @@ def build_args(it, mod, fname, roles, secret_bytes=None, rng=None):
             # a slice occupies two IR parameters (ptr, len); emitted on the first, the second consumes no role
             m = re.match(r"[sp]l(\d+):(\d+)", r); es, cnt = int(m.group(1)), int(m.group(2))
             if not getattr(build_args, "_pending", None):
-                p = sec_region("slice%d" % ri, es * cnt) if r[0] == "s" else it.public_region("slice%d" % ri, [(j * 7 + 1) & 255 for j in range(es * cnt)])
+                p = sec_region("slice%d" % ri, es * cnt) if r[0] == "s" else pub_region("slice%d" % ri, [(j * 7 + 1) & 255 for j in range(es * cnt)])
                 args.append(p); build_args._pending = cnt; continue
             args.append(Poly.const(build_args._pending)); build_args._pending = None; ri += 1; continue
         ri += 1
         if r[0] in "so" and r[1:].isdigit(): args.append(sec_region("arg%d" % ri, int(r[1:])))
-        elif r[0] == "p" and r[1:].isdigit(): args.append(it.public_region("arg%d" % ri, [(j * 5 + 3) & 255 for j in range(int(r[1:]))]))
+        elif r[0] == "p" and r[1:].isdigit(): args.append(pub_region("arg%d" % ri, [(j * 5 + 3) & 255 for j in range(int(r[1:]))]))
         elif r == "si": args.append(SECRET if rng is None else Poly.const(rng.randrange(2)))
         elif r.startswith("i:"): args.append(Poly.const(int(r[2:])))
         else: raise Unsupported("role " + r)
@@ -99,14 +122,17 @@ def prepare(it, mod, cfg, force_backend):
             want = 1 if ((force_backend == "avx2" and "avx2" in g) or (force_backend == "avx512" and "avx512" in g)) else 0
             it.store(Ptr(p.r, 0), Poly.const(want), 1)
 
+SHAPES = [None, None, "top0f", "top80", "zero", "ones", "top00", "low0", None, None, None, None]
+
 def trace_of(mod, cfg, fname, roles, seed, force_backend):
     it = LSym(mod, max_steps=400_000_000); it.record_events = True
     prepare(it, mod, cfg, force_backend)
-    args = build_args(it, mod, fname, roles, rng=random.Random(seed))
+    rng = random.Random(seed); rng.shape = SHAPES[(seed - 1000) % len(SHAPES)]
+    args = build_args(it, mod, fname, roles, rng=rng)
     it.call(fname, args)
     return it.events
 
-def find_pair(mod, cfg, fname, roles, force_backend, tries=6):
+def find_pair(mod, cfg, fname, roles, force_backend, tries=12):
     """two secrets whose concrete executions of the same IR take different branches / touch different addresses"""
     base = None
     for s in range(tries):
